@@ -74,6 +74,11 @@ MUTANTS += [
   dict(id="mut:inverse-qacc-not-restored", subs=[sub("inverse.py", "    wp.copy(d.qacc, qacc_discrete)", "    pass")], fire=["C26"]),
   # ---- R-PAIR / C08
   # ---- R-WORLD.6 / R-TRACK / R-REF covered by the seeded changes C09_2 / C24_1 / C01_1
+  # ---- C22 / C27 / C39 / C40 (claimed late)
+  dict(id="mut:jac-com-of-body", subs=[sub("support.py", "  offset = point - wp.vec3(subtree_com_in[worldid, body_rootid[bodyid]])", "  offset = point - wp.vec3(subtree_com_in[worldid, bodyid])")], fire=["C22"]),
+  dict(id="mut:fluid-deriv-com-of-body", subs=[sub("derivative.py", "  subtree_root = subtree_com_in[worldid, body_rootid[bodyid]]", "  subtree_root = subtree_com_in[worldid, bodyid]")], fire=["C27"]),
+  dict(id="mut:contact-force-world-of-thread", subs=[sub("support.py", "  worldid = contact_worldid_in[contactid]\n\n  out[tid]", "  worldid = contact_worldid_in[tid]\n\n  out[tid]")], fire=["C39"]),
+  dict(id="mut:flex-vertex-id-as-body-id", subs=[sub("smooth.py", "    bodyid = flex_vertbodyid[vertid]\n    xpos = xpos_in[worldid, bodyid]", "    bodyid = flex_vertbodyid[vertid]\n    xpos = xpos_in[worldid, vertid]")], fire=["C40", "C01"]),
 ]
 
 REFACTORS = [
